@@ -75,7 +75,17 @@ class Tap:
             self._cond_last = 1.0 / res_last
             self.prev = np.full(n, 20.0)
         n = c.shape[1]
-        cur = np.array(b, copy=True)
+        bb = np.asarray(b, dtype=float)
+        if bb.shape[0] == n:
+            cur = np.array(bb, copy=True)
+        else:
+            # a solve over part of the grid: the cells it does not cover keep their temperatures - the state after the step is the
+            # previous state with the solved entries replaced (heat that leaves through the edge of the solved part then shows up as
+            # a per-step imbalance, which is what it is)
+            cur = np.array(self.prev, copy=True)
+            m = min(n, bb.shape[0])
+            cur[:m] = bb[:m]
+            self.partial_solves = getattr(self, "partial_solves", 0) + 1
         flux_out = self._cond_last * (cur[n - 2] - cur[n - 1])
         self.loss += flux_out * 120.0
         dE = float(np.dot(self._cap[: n - 1], cur[: n - 1] - self.prev[: n - 1]))
